@@ -2,39 +2,25 @@
    produces (outside the recorded findings). *)
 From Coq Require Import List NArith ZArith Lia Bool ZifyN ZifyNat ZifyBool.
 From RareV Require Import Base.Hex Base.Res Base.Num Gen.GenC11 Model.Humanize Model.CsvItem Model.Funcs
-  Proofs.NumProof Proofs.FuncsArith Proofs.FuncsStr Proofs.HumanizeProof Proofs.CsvItemProof.
+  Proofs.NumProof Proofs.FuncsArith Proofs.FuncsStr Proofs.FuncsCeil Proofs.HumanizeProof Proofs.HumanizeFloatProof Proofs.CsvItemProof.
 Import ListNotations.
 Local Open Scope Z_scope.
 
-(* inputs outside the domains of the recorded (not repaired) findings; for hf only the marker /
-   arity structure is covered by this theorem (the grouping law of humanizeFloat is tested on the
-   implementation's output, not proved of the model) *)
+(* the only side conditions left concern the oracle text of the two helpers whose law is tested on
+   the output: the text strconv.AppendFloat(v, 'f', 4) handed to hf has the shape sign? digits (. rest)?
+   without separators, and the mantissa text handed to bytesize/bytesizesi is not negative *)
+Definition hf_text (orc : bytes) : Prop :=
+  exists sign ds frac, orc = sign ++ ds ++ frac /\ (sign = [] \/ sign = [45%N]) /\ ds <> [] /\
+    digits ds /\ frac_ok frac /\ strip_sep frac = frac.
+
 Definition C11_guard (c : case) : Prop :=
   let '(f, args, orc) := c in
   match f with
-  | And | Or => no_blank_only args
-  | Ceil => match args with
-            | [a] => match a_f a with
-                     | Some (FFin m e) => in_int64 (fceil m e) = true
-                     | Some _ => False
-                     | None => True
-                     end
-            | _ => True
-            end
-  | Floor => match args with
-             | [a] => match a_f a with
-                      | Some (FFin m e) => in_int64 (ffloor m e) = true
-                      | Some _ => False
-                      | None => True
-                      end
-             | _ => True
-             end
-  | Hf => match args with [a] => a_f a = None | _ => True end
-  | Bytesize | BytesizeSi =>
-      match args with
-      | a :: _ => match atou (a_val a) with Some u => (u < 2 ^ 63)%N | None => True end
-      | [] => True
-      end
+  | Hf => match args with
+          | [a] => match a_f a with Some (FFin _ _) => hf_text orc | _ => True end
+          | _ => True
+          end
+  | Bytesize | BytesizeSi => is_prefix [45%N] orc = false /\ orc <> []
   | _ => True
   end.
 
@@ -62,6 +48,26 @@ Qed.
 
 Lemma static_int_inv b s : static_int b = Some s -> a_const b = true /\ atoi (a_val b) = Some s.
 Proof. unfold static_int. destruct (a_const b); [auto|discriminate]. Qed.
+
+Lemma unitize_out_nonneg step delim units args orc :
+  is_prefix [45%N] orc = false /\ orc <> [] ->
+  exists out, f_unitize true step delim units args orc = Ok out /\ is_prefix [45%N] out = false.
+Proof.
+  intros [H1 H2]. unfold f_unitize, ok.
+  assert (B : forall a, exists out,
+             match option_map Z.of_N (atou (a_val a)) with
+             | Some n => Ok (unitize n step delim units orc)
+             | None => Ok ErrorNum
+             end = Ok out /\ is_prefix [45%N] out = false).
+  { intros a. destruct (atou (a_val a)) as [u|]; cbn [option_map].
+    - eexists. split; [reflexivity|]. apply bytesize_nonneg_proof; assumption.
+    - eexists. split; reflexivity. }
+  destruct args as [|a [|p [|x r]]].
+  - eexists. split; reflexivity.
+  - apply B.
+  - destruct (static_int p); [apply B|]. eexists. split; reflexivity.
+  - eexists. split; reflexivity.
+Qed.
 
 Ltac dflt := first [apply res_eqb_refl | cbn [on_ok]; apply bytes_eqb_refl].
 
@@ -114,35 +120,35 @@ Proof.
     + cbn [eval]. unfold f_expbucket. rewrite Aa. dflt.
   - (* Ceil *)
     destruct args as [|a [|x r]]; try apply res_eqb_refl.
-    unfold C11_guard in G. cbn [eval]. unfold f_ceilfloor. destruct (a_f a) as [[| | |m e]|]; try (exfalso; exact G); cbn [on_ok f_to_int].
-    + rewrite G. apply bytes_eqb_refl.
-    + apply bytes_eqb_refl.
+    cbn [eval]. unfold f_ceilfloor, ok. destruct (a_f a) as [[| | |m e]|]; cbn [on_ok f_to_int]; try reflexivity;
+      try apply bytes_eqb_refl.
+    destruct (in_int64 (fceil m e)); cbn [on_ok]; [apply bytes_eqb_refl|reflexivity].
   - (* Floor *)
     destruct args as [|a [|x r]]; try apply res_eqb_refl.
-    unfold C11_guard in G. cbn [eval]. unfold f_ceilfloor. destruct (a_f a) as [[| | |m e]|]; try (exfalso; exact G); cbn [on_ok f_to_int].
-    + rewrite G. apply bytes_eqb_refl.
-    + apply bytes_eqb_refl.
-  - (* And *)
-    cbn [eval]. destruct (andor_partial_proof args G) as [E _]. rewrite E.
-    destruct args; cbn [on_ok]; apply bytes_eqb_refl.
-  - (* Or *)
-    cbn [eval]. destruct (andor_partial_proof args G) as [_ E]. rewrite E.
-    destruct args; cbn [on_ok]; apply bytes_eqb_refl.
+    cbn [eval]. unfold f_ceilfloor, ok. destruct (a_f a) as [[| | |m e]|]; cbn [on_ok f_to_int]; try reflexivity;
+      try apply bytes_eqb_refl.
+    destruct (in_int64 (ffloor m e)); cbn [on_ok]; [apply bytes_eqb_refl|reflexivity].
+  (* And, Or: the model is the documented truthy logic; closed by the first tactic *)
   - (* Hi *)
     destruct args as [|a [|x r]]; try apply res_eqb_refl.
     cbn [eval]. unfold f_hi, ok. destruct (atoi (a_val a)) as [v|]; cbn [on_ok]; [|apply bytes_eqb_refl].
     destruct (hi_law_proof v) as [H1 H2]. rewrite H1, H2, bytes_eqb_refl. reflexivity.
   - (* Hf *)
     destruct args as [|a [|x r]]; try apply res_eqb_refl.
-    unfold C11_guard in G. rewrite G. cbn [eval]. unfold f_hf. rewrite G. dflt.
+    unfold C11_guard in G. cbn [eval]. unfold f_hf, ok.
+    destruct (a_f a) as [[| | |m e]|]; try apply res_eqb_refl; [|cbn [on_ok]; apply bytes_eqb_refl].
+    destruct G as (sign & ds & frac & -> & Hs & Hne & Hd & Hf & Hfs).
+    rewrite hf_law_proof by assumption. cbn [on_ok].
+    destruct (hf_check_proof sign ds frac Hs Hne Hd Hf Hfs) as [C1 C2]. cbn zeta in C1, C2.
+    rewrite C1, C2, bytes_eqb_refl. reflexivity.
   - (* Bytesize *)
-    destruct args as [|a r]; try apply res_eqb_refl.
-    unfold C11_guard in G. destruct (atou (a_val a)) as [u|]; [|apply res_eqb_refl].
-    assert (E : (2 ^ 63 <=? u)%N = false) by (apply N.leb_gt; exact G). rewrite E. apply res_eqb_refl.
+    destruct args as [|a r]; try apply res_eqb_refl. rewrite res_eqb_refl. cbn [andb].
+    destruct (unitize_out_nonneg bytesize_step bytesize_delim bytesize_units (a :: r) orc G) as (out & E & N).
+    cbn [eval]. rewrite E. cbn [on_ok]. rewrite N. reflexivity.
   - (* BytesizeSi *)
-    destruct args as [|a r]; try apply res_eqb_refl.
-    unfold C11_guard in G. destruct (atou (a_val a)) as [u|]; [|apply res_eqb_refl].
-    assert (E : (2 ^ 63 <=? u)%N = false) by (apply N.leb_gt; exact G). rewrite E. apply res_eqb_refl.
+    destruct args as [|a r]; try apply res_eqb_refl. rewrite res_eqb_refl. cbn [andb].
+    destruct (unitize_out_nonneg bytesizesi_step bytesizesi_delim bytesizesi_units (a :: r) orc G) as (out & E & N).
+    cbn [eval]. rewrite E. cbn [on_ok]. rewrite N. reflexivity.
   - (* Csv *)
     destruct args as [|a r]; try apply res_eqb_refl.
     cbn [eval]. unfold f_csv, ok. cbn [on_ok]. rewrite csv_roundtrip_proof by discriminate.
@@ -160,3 +166,21 @@ Example guard_examples :
                  A true [57; 50; 50; 51; 51; 55; 50; 48; 51; 54; 56; 53; 52; 55; 55; 53; 56; 48; 55]%N None], []%list) = Ok [98; 99]%N /\
   eval (Csv, [A false [97; 44; 34]%N None; A true []%list None], []%list) = Ok [34; 97; 44; 34; 34; 34; 44]%N.
 Proof. vm_compute. repeat split; reflexivity. Qed.
+
+(* the second round of repairs on the inputs of their findings: hf 999.99999 (exact value
+   4398046467123535 * 2^-42, text 1000.0000), bytesize 2^64-1 (mantissa text 16), ceil 1e30, and " " a *)
+Example repaired_examples :
+  eval (Hf, [A true [57;57;57;46;57;57;57;57;57]%N (Some (FFin 4398046467123535 (-42)))], [49;48;48;48;46;48;48;48;48]%N)
+    = Ok [49;44;48;48;48;46;48;48;48;48]%N /\
+  hf_text [49;48;48;48;46;48;48;48;48]%N /\
+  eval (Bytesize, [A true [49;56;52;52;54;55;52;52;48;55;51;55;48;57;53;53;49;54;49;53]%N None], [49;54]%N)
+    = Ok [49;54;32;69;66]%N /\
+  eval (Ceil, [A true [49;101;51;48]%N (Some (FFin 1 100))], []%list) = Ok ErrorValue /\
+  eval (And, [A true [32]%N None; A true [97]%N None], []%list) = Ok []%list /\
+  eval (Or, [A true [32]%N None], []%list) = Ok []%list.
+Proof.
+  split; [vm_compute; reflexivity|]. split.
+  - exists []%list, [49;48;48;48]%N, [46;48;48;48;48]%N. split; [reflexivity|]. split; [left; reflexivity|].
+    split; [discriminate|]. split; [repeat constructor|]. split; [right; eexists; reflexivity|reflexivity].
+  - vm_compute. repeat split; reflexivity.
+Qed.
